@@ -99,3 +99,15 @@ func boundaryPool() []V {
 		va(0), va(3), {K: "o"}, {K: "c"},
 	}
 }
+
+// one or a few representatives of every kind incl. the values that render as the empty string
+// (the empty string, null, false) and '0': the pool of the script-level observation forms
+func kindPool() []V {
+	return []V{
+		vi(0), vi(1), vi(-1), vi(5),
+		vf(0), vf(0.5), vf(-1.5),
+		vs(""), vs("0"), vs("a"), vs("1"), vs("1.5"),
+		vb(true), vb(false), vn(),
+		va(0), va(3), {K: "o"}, {K: "c"},
+	}
+}
